@@ -1,6 +1,6 @@
 SPECIFICATION Spec
 CONSTANTS
-  Steps = {64, 256, 512, 1024, 2048}
+  Steps = {64, 256, 512, 1024}
   MaxSubs = {2, 3}
   MinSub = 128
   Delta = 640
